@@ -3,13 +3,11 @@
    explicit `Panic site` outcome and every loop runs on fuel; "no panic" and "terminates" are therefore
    statements about the model, tied to the code by the outcome-class comparison of the streams (which run
    the implementation under catch_unwind and a watchdog).
-   exec_no_panic is proved for the STRICT interpreter (strict_exec_no_panic below: for every file whose scan
-   statements have their regex-table entries and whose shorthand bodies are capture-free, every match data
-   tree-sitter can produce for it, globals and a function library respecting graph-node references, no
-   Panic site is reached; the hypotheses exclude exactly the known classes K1 and K3, K2 being OutOfFuel).
-   PARTIAL: the same theorem for the LAZY interpreter (additional sites P_store_index, P_stanza_index,
-   P_unreachable_scoped) is not proved; for it only the pieces below are. *)
-From TSG Require Import Model.Strict Model.Lazy Model.Stdlib Spec.StdlibDoc Model.Checker Proofs.Totality Proofs.NoPanicStrict.
+   exec_no_panic is proved for BOTH interpreters (strict_exec_no_panic, lazy_exec_no_panic below: for every file
+   whose scan statements have their regex-table entries and whose shorthand bodies are capture-free, every match
+   data tree-sitter can produce for it, globals and a function library respecting graph-node references, no
+   Panic site is reached; the hypotheses exclude exactly the known classes K1 and K3, K2 being OutOfFuel). *)
+From TSG Require Import Model.Strict Model.Lazy Model.Stdlib Spec.StdlibDoc Model.Checker Proofs.Totality Proofs.NoPanicStrict Proofs.NoPanicLazy.
 From TSG Require Props.C13 Props.C06 Props.C18.
 
 (* the scan loop always advances (every executed arm consumed at least one character) and, with the fuel
@@ -107,6 +105,50 @@ Proof.
   - split; [|exact I]. constructor; [|constructor]. split; [discriminate|]. split; [reflexivity|]. repeat constructor.
   - repeat constructor.
   - eexists. eexists. split; [vm_compute; reflexivity|]. reflexivity.
+Qed.
+
+(* LAZY INTERPRETER: no panic site is reachable, in the execution phase or in the evaluation phase.  Same hypotheses,
+   with GoodMatchesLazy in place of GoodMatches: each (stanza index, match) pair of the merged query has a stanza
+   index in range (P_stanza_index); captures are looked up by their index in the FILE query (st_full_file_idx, the
+   file_idx of capture expressions).  The proof maintains in addition: every store location inside a lazy value kept
+   anywhere in the state (locals, thunks, scoped-variable cells, recorded statements) is an index of the store, which
+   only grows (P_store_index); the collected scoped definitions and their debug records have the same keys
+   (P_unreachable_scoped). *)
+Theorem lazy_exec_no_panic : forall {rx : Type} (sok : N -> Prop) t fl cfg supplied budget (regexes : list rx) find call fuel matches g0,
+  WellFormedFile regexes fl -> GoodMatchesLazy sok fl matches -> GoodGlobals sok g0 supplied -> GoodCall sok call ->
+  forall x, run_lazy t fl cfg supplied budget regexes find call fuel matches g0 <> Panic x.
+Proof. intros rx. exact (@exec_no_panic_lazy rx). Qed.
+
+Example c05_lazy_nonvacuous :
+  let x := [120] in let y := [121] in let k := [107] in let c := [99] in let gname := [103] in let shn := [115] in let v := [118] in
+  let nd := {| tn_kind := [109]; tn_named := true; tn_error := false; tn_missing := false; tn_parent := None;
+               tn_children := []; tn_start := (0, 0); tn_end := (0, 2); tn_span := (0, 2) |} in
+  let t := {| t_src := [97; 98]; t_nodes := [nd] |} in
+  let cap := ECapture c QOne 0 0 (0, 0) in
+  let st := {| st_stmts := [SNode (VarU x (1, 2)) x (1, 0);
+                            SAttrNode (EUnscoped x (2, 0)) [Attr k (ECall Lit.node_type [cap]); Attr shn (EInt 7)] (2, 0);
+                            SScan (ECall Lit.source_text [cap]) [(0, [SPrint [ERegexCap 0] (3, 1)], (3, 1))] (3, 0);
+                            SFor y (4, 0) (EList [EUnscoped gname (4, 1); EUnscoped x (4, 2)])
+                                 [SEdge (EUnscoped x (5, 0)) (EUnscoped y (5, 1)) (5, 0)] (4, 0);
+                            SLet (VarS cap v (6, 0)) (EUnscoped x (6, 1)) (6, 0);
+                            SAttrNode (EScoped cap v (7, 0)) [Attr [97] (EInt 1)] (7, 0)];
+               st_full_stanza_idx := 0; st_full_file_idx := 0; st_start := (0, 0) |} in
+  let sh := {| sh_name := shn; sh_var := v; sh_vloc := (7, 0); sh_attrs := [Attr [119] (EUnscoped v (7, 1))]; sh_loc := (7, 0) |} in
+  let fl := {| f_globals := [{| gl_name := gname; gl_quant := QOne; gl_default := None; gl_loc := (0, 0) |}];
+               f_inherited := []; f_shorthands := [sh]; f_stanzas := [st] |} in
+  let regexes := [tt] in
+  let find := fun (_ : unit) (s : str) => match s with [] => None | _ :: _ => Some [Some (0, 1)] end in
+  let supplied := [[(gname, VGraph 0)]] in
+  let g0 := [new_gnode] in
+  let matches := [(0, [(0, [0])])] in
+  WellFormedFile regexes fl /\ GoodMatchesLazy (syn_ok t) fl matches /\ GoodGlobals (syn_ok t) g0 supplied /\
+  exists s p, run_lazy t fl config0 supplied None regexes find (stdlib_call (fun _ _ _ => None) t) 50 matches g0 = Ok (s, p) /\
+              length (l_graph s) = 2%nat /\ (0 < length (l_store s))%nat.
+Proof.
+  cbv zeta. split; [reflexivity|]. split; [|split].
+  - constructor; [|constructor]. split; [discriminate|]. split; [reflexivity|]. repeat constructor.
+  - repeat constructor.
+  - eexists. eexists. split; [vm_compute; reflexivity|]. split; [reflexivity|]. cbn [l_store length]. lia.
 Qed.
 
 Example c05_nonvacuous :
